@@ -46,7 +46,7 @@ ASSUMPTIONS = [
     "a point's own rectangle is accepted in the envelope whether or not it covers the point",
     "fixed_width_band_ci is exercised only with supports spanning the whole curve (nb_points or all scores)",
 ]
-PROBES = ["envelope_checked_easy", "caller_reuses_buffers", "interrupt_fired", "sampler_raise_fired", "rule_of_three_low", "rule_of_three_high", "identity_sampler", "recording_builtin", "builtin_string", "degenerate_sampler",
+PROBES = ["sampler_reenter_fired", "envelope_checked_easy", "caller_reuses_buffers", "interrupt_fired", "sampler_raise_fired", "rule_of_three_low", "rule_of_three_high", "identity_sampler", "recording_builtin", "builtin_string", "degenerate_sampler",
           "envelope_checked", "easy_source", "experimental_pointwise", "experimental_sjr", "experimental_fwb", "supplied_fnr",
           "supplied_fpr", "supplied_thresholds", "nb_points_given", "bca", "bc", "quantile", "envelope_widened"]
 
@@ -81,6 +81,7 @@ def generate(rnd, tier):
         obj["dtype"] = "float64"
     if rnd.random() < 0.7:
         obj["nb_easy_pos"] = obj["nb_easy_neg"] = 0
+    c11.coerce_values(obj)
     ops = []
     fault_free = rnd.random() < 0.34
     for _ in range(rnd.randint(1, 3 if big else 4)):
@@ -120,6 +121,8 @@ def generate(rnd, tier):
             if method in ("replacement", "dynamic") and rnd.random() < 0.12:
                 inner["smoothing"] = True
             sampler = {"callable": "recording", "inner": inner} if rnd.random() < 0.75 else inner
+            if "callable" in sampler and rnd.random() < 0.12:
+                sampler["reenter"] = True
         cfg = {"nb_samples": rnd.randint(2, 8 if big else 60) if rnd.random() < 0.8 else rnd.randint(2, 6),
                "bootstrap_method": rnd.choice(["quantile", "bc", "bca"])}
         op = {"op": "band", "fn": fn, "args": args, "sampler": sampler, "cfg": cfg, "arg_types": arg_types}
@@ -237,6 +240,8 @@ class RecSampler:
         self.raise_at = raise_at
         self.raised = False
         self.calls = 0
+        self.reenter = False
+        self.reentered = False
 
     def __call__(self, source, **kw):
         L = lib()
@@ -244,6 +249,12 @@ class RecSampler:
         if self.raise_at is not None and self.calls - 1 == self.raise_at:
             self.raised = True
             raise CallbackFault(f"planned failure of sampler call {self.raise_at}")
+        if self.reenter and self.calls % 3 == 1:
+            # re-entrant user code: queries and a nested resample on the object the library is in the middle of using
+            self.reentered = True
+            source.cm(np.array([0.0]))
+            source.swap()
+            source.bootstrap_sample(L.BootstrapConfig(sampling_method="replacement"))
         if self.kind == "identity":
             out = source
         elif self.kind == "recording":
@@ -304,6 +315,7 @@ def execute(scn, ctx):
             inner = M.build_config(dict(sspec.get("inner", {}), nb_samples=1)) if s_kind == "recording" else None
             ra = next((f["call"] for f in (op.get("faults") or []) if f["kind"] == "sampler_raise"), None)
             sampler = RecSampler(s_kind, inner, sspec.get("which", 0), raise_at=ra)
+            sampler.reenter = bool(sspec.get("reenter"))
             config = M.build_config(dict(cfg, sampling_method={"callable": s_kind}), sampler=sampler)
         else:
             config = M.build_config(dict(sspec, **cfg))
@@ -338,6 +350,9 @@ def execute(scn, ctx):
             fired.append("interrupt")
         if sampler is not None and sampler.raised:
             fired.append("sampler_raise")
+        if sampler is not None and sampler.reentered:
+            fired.append("sampler_reenter")
+            probe("sampler_reenter_fired")
         control_fault = res["interrupted"] or (sampler is not None and sampler.raised)
         if res["interrupted"]:
             probe("interrupt_fired")
